@@ -59,6 +59,14 @@ func runC05(c *Ctx) {
 							addFrom(sel.Body, depth+1)
 						}
 					}
+					// a constructor of the table (property name → sanitiser): the sanitisers it stores
+					if sig, _ := ob.Type().(*types.Signature); ob.Pkg() == sp.Types && sig != nil && sig.Results().Len() == 1 && depth < 3 {
+						if mt, isMap := sig.Results().At(0).Type().Underlying().(*types.Map); isMap && isSanSig(mt.Elem()) {
+							if ctor := findFunc(sp, "", ob.Name()); ctor != nil && ctor.Body != nil {
+								addFrom(ctor.Body, depth+1)
+							}
+						}
+					}
 				case *types.Var:
 					if ob.Pkg() == sp.Types && ob.Parent() == sp.Types.Scope() && depth < 2 {
 						if init := pkgVarInit(sp, ob.Name()); init != nil {
@@ -1431,7 +1439,28 @@ func viewRootSyntactic(info *types.Info, h *ast.FuncDecl, e ast.Expr) types.Obje
 		assigned := false
 		ast.Inspect(h.Body, func(n ast.Node) bool {
 			as, ok := n.(*ast.AssignStmt)
-			if !ok || len(as.Lhs) != len(as.Rhs) {
+			if !ok {
+				return true
+			}
+			// rest, ok := strings.CutPrefix(x, p) / CutSuffix: rest is x without a fixed, known end
+			if len(as.Lhs) == 2 && len(as.Rhs) == 1 {
+				if call, isCall := ast.Unparen(as.Rhs[0]).(*ast.CallExpr); isCall && len(call.Args) == 2 {
+					if fn := calleeOf(info, call); fn != nil && (fullName(fn) == "strings.CutPrefix" || fullName(fn) == "strings.CutSuffix") {
+						if id, ok := as.Lhs[0].(*ast.Ident); ok && info.ObjectOf(id) == root {
+							assigned = true
+							if r := viewRootNoEnv(info, call.Args[0]); r == nil {
+								consistent = false
+							} else if r != root {
+								if next != nil && next != r {
+									consistent = false
+								}
+								next = r
+							}
+						}
+					}
+				}
+			}
+			if len(as.Lhs) != len(as.Rhs) {
 				return true
 			}
 			for j, l := range as.Lhs {
@@ -1658,7 +1687,22 @@ func cssSanitiserReturns(c *Ctx, tp *packages.Package, fd *ast.FuncDecl, depth i
 								}
 							}
 							if v == "raw" {
-								v, d = "bad", "the value is stored unsanitised in "+ob.Name()+" and returned later"
+								// … unless the store itself sits in the branch that pins the value's type to SafeCSSProperty
+								pinned := false
+								ast.Inspect(fd.Body, func(z ast.Node) bool {
+									if is, ok := z.(*ast.IfStmt); ok && is.Body.Pos() <= as.Pos() && as.End() <= is.Body.End() && pinsType(is) {
+										pinned = true
+									}
+									if cc, ok := z.(*ast.CaseClause); ok && cc.Pos() <= as.Pos() && as.End() <= cc.End() && len(cc.List) == 1 && strings.HasSuffix(types.ExprString(cc.List[0]), "SafeCSSProperty") {
+										pinned = true
+									}
+									return true
+								})
+								if pinned {
+									v, d = "sanitised", ""
+								} else {
+									v, d = "bad", "the value is stored unsanitised in "+ob.Name()+" and returned later"
+								}
 							}
 							if verdict == "" || v == "bad" || v == "foreign" {
 								verdict, detail = v, d
